@@ -25,7 +25,8 @@ from rpv.gen import METHODS
 PROPERTY_ID = "C18"
 LEVEL = "exploration"
 RULE = (
-    "real CLI runs of all five entry points on valid inputs (all generators, date filters, -n, prefixes), on valid inputs with "
+    "real CLI runs of all five entry points on valid inputs (all generators, date filters, -n, prefixes; a third of them into an output "
+    "directory where the report names are symbolic links to earlier reports archived elsewhere, one link dangling: the archived files must stay byte-identical), on valid inputs with "
     "every environment variable that RP2's own files were observed consulting set (names discovered at run time by a hook on "
     "os.environ lookups, e.g. RP2_ENABLE_PROFILER, LOG_LEVEL), on inputs carrying one fault of C12's catalogue (row / structure / "
     "config classes), on hard errors (garbage or binary config, input that is not a zip, missing files, wrongly typed cells: "
@@ -41,8 +42,8 @@ ASSUMPTIONS = [
     "strace sees the Python interpreter's own syscalls too: only network-family and process-creation syscalls are judged",
 ]
 SETTINGS: Dict[str, Dict[str, Any]] = {
-    "quick": {"cases": 160, "strace_every": 8, "budget_s": 75, "minimums": {"audited_runs": 120, "strace_runs": 12, "write_events": 400, "import_events": 20000, "modules_swept": 40, "import_sites": 250, "nontrivial": 100, "error_path_runs": 40, "runs_with_rp2_env_variable_set": 12, "tag_env_names_read_by_rp2": 2, "tag_error_types": 3, "tag_fault_class": 20, "large_input_runs": 2, "tag_hard_error": 9}, "required_tags": {"tag_country": list(COUNTRIES)}},
-    "thorough": {"cases": 1600, "strace_every": 8, "budget_s": 600, "minimums": {"audited_runs": 1200, "strace_runs": 120, "write_events": 4000, "import_events": 200000, "modules_swept": 40, "import_sites": 250, "nontrivial": 1000, "error_path_runs": 400, "runs_with_rp2_env_variable_set": 120, "tag_env_names_read_by_rp2": 2, "tag_error_types": 3, "tag_fault_class": 24, "large_input_runs": 20, "tag_hard_error": 11}, "required_tags": {"tag_country": list(COUNTRIES)}},
+    "quick": {"cases": 160, "strace_every": 8, "budget_s": 75, "minimums": {"runs_into_a_directory_of_links_to_archived_reports": 6, "audited_runs": 120, "strace_runs": 12, "write_events": 250, "import_events": 20000, "modules_swept": 40, "import_sites": 250, "nontrivial": 100, "error_path_runs": 40, "runs_with_rp2_env_variable_set": 12, "tag_env_names_read_by_rp2": 2, "tag_error_types": 3, "tag_fault_class": 20, "large_input_runs": 2, "tag_hard_error": 9}, "required_tags": {"tag_country": list(COUNTRIES)}},
+    "thorough": {"cases": 1600, "strace_every": 8, "budget_s": 600, "minimums": {"runs_into_a_directory_of_links_to_archived_reports": 60, "audited_runs": 1200, "strace_runs": 120, "write_events": 4000, "import_events": 200000, "modules_swept": 40, "import_sites": 250, "nontrivial": 1000, "error_path_runs": 400, "runs_with_rp2_env_variable_set": 120, "tag_env_names_read_by_rp2": 2, "tag_error_types": 3, "tag_fault_class": 24, "large_input_runs": 20, "tag_hard_error": 11}, "required_tags": {"tag_country": list(COUNTRIES)}},
 }
 NETWORK_MODULES = {
     "socket", "_socket", "ssl", "_ssl", "http", "http.client", "http.server", "http.cookiejar", "urllib.request", "urllib3", "ftplib", "smtplib", "poplib", "imaplib",
@@ -148,6 +149,8 @@ def scenario(rng: Any, index: int, env_names: Optional[List[str]] = None) -> Dic
     else:
         args += rng.choice((["-f", "2022-01-01", "-t", "2021-01-01"], ["-l", "x"], ["-g", "zz"], ["-a", "NOPE"], ["-f", "not-a-date"], ["--bogus-option"]))
     case["args"] = args
+    # the user archived earlier reports and left symbolic links under the report names in the output directory (one of them dangling)
+    case["archive_links"] = kind in ("valid", "valid-env") and index % 3 == 1
     return case
 
 
@@ -276,6 +279,24 @@ def _one(ctx: Any, case: Dict[str, Any], name: str, strace: bool) -> None:
             os.rmdir(out_dir)
             with open(out_dir, "w", encoding="utf-8") as handle:
                 handle.write("this is a file, not a directory\n")
+        archived: Dict[str, str] = {}
+        if case.get("archive_links"):
+            first = ws.run(case["country"], case["args"], out_dir=out_dir, audit=False, home=home, env_extra=dict(case.get("env") or {}) or None)
+            ctx.count("executions")
+            archive = os.path.join(ws.root, "archive")
+            os.makedirs(archive)
+            for k, fname in enumerate(sorted(f for f in os.listdir(out_dir) if f.endswith(".ods"))):
+                if first.exit != 0:
+                    break
+                if k == 0:
+                    os.remove(os.path.join(out_dir, fname))
+                    os.symlink(os.path.join(archive, "not-there.ods"), os.path.join(out_dir, fname))
+                else:
+                    os.rename(os.path.join(out_dir, fname), os.path.join(archive, "filed-" + fname))
+                    os.symlink(os.path.join("..", "archive", "filed-" + fname) if k % 2 else os.path.join(archive, "filed-" + fname), os.path.join(out_dir, fname))
+                    archived[os.path.join(archive, "filed-" + fname)] = _sha(os.path.join(archive, "filed-" + fname))
+            if archived:
+                ctx.count("runs_into_a_directory_of_links_to_archived_reports")
         before = {"ini": _sha(ws.ini), "ods": _sha(ws.ods), "cwd": _listing(ws.root), "home": _listing(home)}
         env_extra = dict(case.get("env") or {}) or None
         res = ws.run(case["country"], case["args"], out_dir=out_dir, audit=True, strace=False, home=home, env_extra=env_extra)
@@ -310,6 +331,9 @@ def _one(ctx: Any, case: Dict[str, Any], name: str, strace: bool) -> None:
             ctx.violation("privacy.config-file-modified", {}, case)
         if _sha(ws.ods) != before["ods"]:
             ctx.violation("privacy.input-spreadsheet-modified", {}, case)
+        for path, digest in archived.items():
+            if not os.path.exists(path) or _sha(path) != digest:
+                ctx.violation("privacy.file-outside-output-directory-modified-through-a-link", {"file": os.path.relpath(path, ws.root)}, case)
         if _listing(home) != before["home"]:
             ctx.violation("privacy.file-created-in-home", {"files": _listing(home)}, case)
         new_files = [f for f in _listing(ws.root) if f not in before["cwd"]]
